@@ -28,6 +28,7 @@ type NetFlowMapField struct {
 
 	Destination string     `yaml:"destination"`
 	Endian      EndianType `yaml:"endianness"`
+	EndianShort EndianType `yaml:"endian"` // same setting, as spelled in the documentation and the example mapping file
 	//DestinationLength uint8  `json:"dlen"` // could be used if populating a slice of uint16 that aren't in protobuf
 }
 
@@ -47,6 +48,7 @@ type SFlowMapField struct {
 
 	Destination string     `yaml:"destination"`
 	Endian      EndianType `yaml:"endianness"`
+	EndianShort EndianType `yaml:"endian"` // same setting, as spelled in the documentation and the example mapping file
 	//DestinationLength uint8  `json:"dlen"`
 }
 
@@ -264,6 +266,14 @@ func (c *DataMapLayer) IsEncapsulated() bool {
 	return c.Encapsulated
 }
 
+// endianOf returns the configured endianness, given as `endianness` or as `endian`
+func endianOf(endianness, endian EndianType) EndianType {
+	if endianness == "" {
+		return endian
+	}
+	return endianness
+}
+
 func mapFieldsSFlow(fields []SFlowMapField) *SFlowMapper {
 	ret := make(map[string][]*DataMapLayer)
 	for _, field := range fields {
@@ -273,7 +283,7 @@ func mapFieldsSFlow(fields []SFlowMapField) *SFlowMapper {
 			Encapsulated: field.Encapsulated,
 		}
 		retLayerEntry.Destination = field.Destination
-		retLayerEntry.Endianness = field.Endian
+		retLayerEntry.Endianness = endianOf(field.Endian, field.EndianShort)
 		retLayer := ret[field.Layer]
 		retLayer = append(retLayer, retLayerEntry)
 		ret[field.Layer] = retLayer
@@ -300,7 +310,7 @@ func mapFieldsNetFlow(fields []NetFlowMapField) *NetFlowMapper {
 	for _, field := range fields {
 		dm := &DataMap{}
 		dm.Destination = field.Destination
-		dm.Endianness = field.Endian
+		dm.Endianness = endianOf(field.Endian, field.EndianShort)
 		ret[fmt.Sprintf("%v-%d-%d", field.PenProvided, field.Pen, field.Type)] = dm
 	}
 	return &NetFlowMapper{data: ret}
